@@ -51,7 +51,7 @@ def shared_only(case: dict) -> bool:
 
 def run(tier: str, seed: int, rep: Report, model: Model) -> dict:
     rnd = rng_for("C15", seed)
-    n = depth(tier, 400, 4000)
+    n = depth(tier, 400, 10000)
     libs = [l for l in LIBS if available(l, "f32")]
     rep.rule = ("contexts as in C01 (conforming / one fault / several) with shared dtypes, each run under 3 library assignments and once with "
                 "arrays produced another way (Fortran / strided / transposed / broadcast / read-only / non-zero / MaskedArray / ndarray subclass; torch "
